@@ -44,7 +44,7 @@ inductive CallArg
   deriving Repr, Inhabited
 
 inductive EnumAction
-  | member (name : S)
+  | member (name : S) (val : ConstVal)
   | ignore
   | panic
   | error (wrap : Wrap)
@@ -64,21 +64,21 @@ mutual
     /-- a call; `retErr` says whether the callee returns an error that is checked and propagated -/
     | call (callee : Callee) (args : List CallArg) (retErr : Bool) (wrap : Wrap)
     /-- `*S → *T` (Pointer): `if s != nil { x := inner(*s); t = &x }` -/
-    | ptrPtr (inner : Conv)
+    | ptrPtr (te : Ty) (inner : Conv)
     /-- `*S → T` with useZeroValueOnPointerInconsistency (SourcePointer): `if s != nil { t = inner(*s) }` -/
     | srcPtr (inner : Conv)
     /-- `S → *T` (TargetPointer / BasicTargetPointerRule): `x := inner(s); &x` -/
-    | tgtPtr (inner : Conv)
+    | tgtPtr (te : Ty) (inner : Conv)
     /-- list: `make` present?, nil guard present?, element conversion.
         Build from a slice: nil guard + make.  Build from an array: make, no guard.
         Assign from a slice: nil guard + make.  Assign from an array: NEITHER (the code omits `make`). -/
-    | list (hasMake hasNilGuard : Bool) (elem : Conv)
+    | list (te : Ty) (hasMake hasNilGuard : Bool) (elem : Conv)
     /-- map: `if s != nil { t = make(len); for k, v := range s { t[key(k)] = val(v) } }` -/
-    | mapc (key val : Conv)
+    | mapc (tk tv : Ty) (key val : Conv)
     /-- struct: per target field in declaration order -/
     | structc (fields : FieldPlans) (isUpdate : Bool)
-    /-- enum switch: (source member names sharing a `case`, action) in emission order, then the default action -/
-    | enumc (cases : List (S × EnumAction)) (dflt : EnumAction)
+    /-- enum switch: (source member, its value, action) per emitted `case`, then the default action -/
+    | enumc (cases : List (S × ConstVal × EnumAction)) (dflt : EnumAction)
     /-- `default FUNC`: the target variable starts from the constructor's result (the constructor call,
         whether its result must be wrapped into a pointer), then `rest` assigns on top of it -/
     | withCtor (ctor : Conv) (toPointer : Bool) (rest : Conv)
